@@ -28,8 +28,12 @@ let dec_of_z (x : z) : string = string_of_bytes (dec_of_Z x)
 
 (* ---- float instantiation ---- *)
 let single (x : float) : float = Int32.float_of_bits (Int32.bits_of_float x)
-let print32 (x : float) = bytes_of_string (Printf.sprintf "%.8e" x)
-let print64 (x : float) = bytes_of_string (Printf.sprintf "%.16e" x)
+let fin (x : float) = match classify_float x with FP_infinite | FP_nan -> false | _ -> true
+(* the printers; each use checks the hypothesis of the theorems (Spec.sci_shape) on finite values *)
+let shape_checked (t : n list) (x : float) : n list =
+  if fin x && not (sci_shape t) then failwith "float shape hypothesis violated" else t
+let print32 (x : float) = shape_checked (bytes_of_string (Printf.sprintf "%.8e" x)) x
+let print64 (x : float) = shape_checked (bytes_of_string (Printf.sprintf "%.16e" x)) x
 let num_re = Str.regexp "[ \t\n\r\011\012]*\\([-+]?\\([0-9]+\\.?[0-9]*\\|\\.[0-9]+\\)\\([eE][-+]?[0-9]+\\)?\\)"
 let strtod_prefix (text : string) : float =
   if Str.string_match num_re text 0 then
@@ -39,7 +43,6 @@ let parse32 (t : n list) : float = single (strtod_prefix (string_of_bytes t))
 let parse64 (t : n list) : float = strtod_prefix (string_of_bytes t)
 let eq32 (a : float) (b : float) = Int32.bits_of_float a = Int32.bits_of_float b
 let eq64 (a : float) (b : float) = Int64.bits_of_float a = Int64.bits_of_float b
-let fin (x : float) = match classify_float x with FP_infinite | FP_nan -> false | _ -> true
 
 type jv = (float, float) json
 
@@ -143,9 +146,11 @@ let do_tree toks =
     let (eq, same, tree) =
       match parse_at parse32 parse64 d with
       | Ok (v', _) ->
-        let e = (match json_eq eq32 eq64 v' v with Some true -> "1" | Some false -> "0" | None -> "X") in
-        let s = if json_same eq32 eq64 v' v then "1" else "0" in
-        (e, s, enc v')
+        if dom then
+          let e = (match json_eq eq32 eq64 v' v with Some true -> "1" | Some false -> "0" | None -> "X") in
+          let s = if json_same eq32 eq64 v' v then "1" else "0" in
+          (e, s, enc v')
+        else ("-", "-", enc v')
       | Err -> ("E", "-", "ERR")
       | Oob -> ("E", "-", "OOB")
       | NoFuel -> ("E", "-", "NOFUEL") in
@@ -185,7 +190,8 @@ let () =
            | "T" :: rest -> do_tree rest
            | "P" :: rest -> do_parse rest
            | _ -> failwith "case")
-        with Failure _ | Invalid_argument _ | Not_found -> ("R BAD", "S BAD") in
+        with Failure m when m = "float shape hypothesis violated" -> ("R HYP float shape", "S HYP")
+           | Failure _ | Invalid_argument _ | Not_found -> ("R BAD", "S BAD") in
       print_string (r ^ "\n" ^ s ^ "\n")
     done
   with End_of_file -> ()
